@@ -169,6 +169,7 @@ func initProperties() {
 			Decides: "every locator loop of the mutators has a not-found exit and no in-place size patch precedes a fallible step (NOTFOUNDEXIT), name->id translation checks the lookup (NILLOOKUP), in-place patching of the caller's bytes is confined to the mutators (INPUTRO), insertion errors propagate (DROPERR).",
 			NotDec:  "splice arithmetic, count/order after arbitrary histories, fork independence.",
 			Uses: uses(
+				use("HDRPEEK", "an inserted map key is encoded by the key type read at its wire offset", nil),
 				use("MAPHDRORDER", "an empty map written for an absent field names key type before value type", thriftPkg),
 				use("INDEXLOWER", "a negative element index is rejected by the editors too", thriftGeneric),
 				use("NOTFOUNDEXIT", "absent element changes nothing", thriftGeneric),
